@@ -63,15 +63,18 @@ Definition set_el e x := mkE x (recs e) (cool e) (eflags e) (dep e) (udep e) (tm
 Definition set_eflags e x := mkE (el e) (recs e) (cool e) x (dep e) (udep e) (tms e) (epool e) (epaid e) (eret e) (gburn e).
 
 (* ---------- the AssetToAmount records ---------- *)
-Definition same_key (r w : arec) : bool := (ar_app r =? ar_app w) && (ar_asset r =? ar_asset w).
+Definition rkey (r : arec) : Z * Z := (ar_app r, ar_asset r).
+Definition key_is (w : arec) (app asset : Z) : bool := (ar_app w =? app) && (ar_asset w =? asset).
 Definition key_lt (r w : arec) : bool := (ar_app r <? ar_app w) || ((ar_app r =? ar_app w) && (ar_asset r <? ar_asset w)).
 Fixpoint find_rec (l : list arec) (app asset : Z) : option arec :=
-  match l with [] => None | w :: t => if (ar_app w =? app) && (ar_asset w =? asset) then Some w else find_rec t app asset end.
-Fixpoint put_rec (l : list arec) (r : arec) : list arec :=
-  match l with
-  | [] => [r]
-  | w :: t => if same_key r w then r :: t else if key_lt r w then r :: w :: t else w :: put_rec t r
-  end.
+  match l with [] => None | w :: t => if key_is w app asset then Some w else find_rec t app asset end.
+(* SetAssetToAmount: an existing key is overwritten in place, a new key is inserted in key order *)
+Fixpoint repl_rec (l : list arec) (r : arec) : list arec :=
+  match l with [] => [] | w :: t => if key_is w (ar_app r) (ar_asset r) then r :: t else w :: repl_rec t r end.
+Fixpoint ins_rec (l : list arec) (r : arec) : list arec :=
+  match l with [] => [r] | w :: t => if key_lt r w then r :: w :: t else w :: ins_rec t r end.
+Definition put_rec (l : list arec) (r : arec) : list arec :=
+  match find_rec l (ar_app r) (ar_asset r) with Some _ => repl_rec l r | None => ins_rec l r end.
 Definition app_recs (l : list arec) (app : Z) : list arec := filter (fun r => ar_app r =? app) l.
 Definition with_amt (r : arec) (x : Z) := mkAR (ar_app r) (ar_asset r) x (ar_coll r) (ar_share r) (ar_worth r).
 
